@@ -1,2 +1,442 @@
 import LenaModel.Model.C01
-/-! # C01 — property theorems (stub, being written) -/
+import LenaModel.Lemmas.C01
+/-! # C01 — Sequence and Source compute the left-to-right composition of their elements
+
+All theorems are about the model `LenaModel/Model/C01.lean` (generic part: any value type `α`, any
+element denotations), for ALL argument lists, bracketing trees of any depth and flows (streams of
+values that may end in an exception) — nothing is bounded.
+
+* `run_eq_fold`                — "Sequence(e1,...,en).run(flow) yields exactly the values obtained by feeding
+                                 each element's stream transformation with the output of the previous one"
+* `regroup`, `regroup_any_two` — "regrouping the same elements into nested Sequences never changes the result"
+* `source_tail`, `source_move` — "... or placing them after the first element of a Source"
+* `empty_id`, `nodata_only_id` — "an empty Sequence is the identity"
+* `reject_at_construction`, `constructed_sound` — "an argument that cannot be converted to an element is
+                                 rejected with LenaTypeError when the sequence is constructed, never later" -/
+
+namespace Lena.C01
+open Lena.Flow
+
+variable {α : Type}
+
+/-! ### the run of a constructed sequence is the left fold of its elements' transformations -/
+
+/-- **Left-to-right composition.**  If `Sequence(*args)` can be constructed, `run(flow)` is the monadic
+left fold over the data arguments (those without `_has_no_data`), in order, of each element's own
+stream transformation `Element.den` — its `run` if it has a callable one, else the map of the
+callable over the flow, else fill-everything-then-compute — started from `flow`.  The fold is in
+`Except`: an exception raised by a call `el.run(flow)` itself ends it; values and exceptions of the
+lazy iteration travel inside the stream. -/
+theorem run_eq_fold (args : List (Element α)) (s : Seq α) (h : mkSequence args = .ok s) (flow : Strm α) :
+    s.run flow = (dataSeq args).foldlM (fun fl e => e.den fl) flow := by
+  rw [(mkSequence_ok_inv args s h).2.1, denAll, composeS_map_foldlM]
+
+/-- the same, one element at a time: the first data element transforms the flow, the rest of the
+sequence is fed with its output -/
+theorem run_cons (e : Element α) (es : List (Element α)) (s : Seq α) (hd : e.hasNoData = false)
+    (h : mkSequence (e :: es) = .ok s) (flow : Strm α) :
+    ∃ s', mkSequence es = .ok s' ∧ s.run flow = (e.den flow >>= s'.run) := by
+  obtain ⟨hok, hrun, -⟩ := mkSequence_ok_inv _ _ h
+  obtain ⟨s', h1, h2, -⟩ := mkSequence_ok es ((okAll_cons e es).1 hok).2
+  refine ⟨s', h1, ?_⟩
+  rw [hrun, h2, denAll_cons]
+  have : denAll [e] = e.den := by
+    have hds : dataSeq [e] = [e] := by simp [dataSeq, hd]
+    simp [denAll, hds, composeS_singleton]
+  rw [this]
+
+/-- non-vacuity: a callable (`x ↦ x + 1`), then an element with `run` (keeps the even values),
+then a fill/compute element (yields the number of filled values), on the flow `1, 2, 3` -/
+example :
+    let inc : Element Nat := { call := true, callDen := fun x => .ok (x + 1) }
+    let evens : Element Nat := { run := .method, runDen := fun s => .ok (filterS (fun x => .ok (x % 2 == 0)) s) }
+    let cnt : Element Nat := { fill := .method, compute := .method, computeDen := fun h => .ok (.ofList [h.length]) }
+    (mkSequence [inc, evens, cnt]).toOption.map (fun s => observe (s.run (.ofList [1, 2, 3])))
+      = some (.ofList [2]) := by decide
+
+/-- … and with an exception: the second value makes the callable raise, the first one has already
+been yielded -/
+example :
+    let boom : Element Nat := { call := true, callDen := fun x => if x = 2 then .error .valueError else .ok x }
+    (mkSequence [boom]).toOption.map (fun s => observe (s.run (.ofList [1, 2, 3])))
+      = some ⟨[1], some .valueError⟩ := by decide
+
+/-! ### rejection at construction, never later -/
+
+/-- the exception of an outcome, if it is one (for the examples) -/
+def errorOf {β : Type} : Except Exc β → Option Exc
+  | .error e => some e
+  | .ok _ => none
+
+/-- **Rejected at construction.**  `Sequence(*args)` raises `LenaTypeError` exactly when some
+argument that carries data has no callable `run`, is not callable and has no callable `fill` and
+`compute`; it raises nothing else. -/
+theorem reject_at_construction (args : List (Element α)) :
+    (mkSequence args = .error .lenaTypeError ↔
+        ∃ e ∈ args, e.hasNoData = false ∧ e.convertible = false) ∧
+    (∀ err, mkSequence args = .error err → err = .lenaTypeError) := by
+  have key : ¬ okAll args ↔ ∃ e ∈ args, e.hasNoData = false ∧ e.convertible = false := by
+    simp only [okAll, Classical.not_forall]
+    constructor
+    · rintro ⟨e, he, hd, hc⟩; exact ⟨e, he, hd, by simpa using hc⟩
+    · rintro ⟨e, he, hd, hc⟩; exact ⟨e, he, hd, by simp [hc]⟩
+  refine ⟨⟨fun h => key.1 (mkSequence_error_inv _ _ h).2, fun h => mkSequence_not_ok _ (key.2 h)⟩, ?_⟩
+  intro err h
+  exact (mkSequence_error_inv _ _ h).1
+
+/-- conversely, a sequence of convertible arguments is always constructed -/
+theorem accept_at_construction (args : List (Element α)) :
+    (∃ s, mkSequence args = .ok s) ↔ ∀ e ∈ args, e.hasNoData = false → e.convertible = true := by
+  constructor
+  · rintro ⟨s, h⟩; exact (mkSequence_ok_inv _ _ h).1
+  · intro h
+    obtain ⟨s, hs, -⟩ := mkSequence_ok args h
+    exact ⟨s, hs⟩
+
+/-- what `run` will call on a stored entry exists and is callable -/
+def Stored.Sound : Stored α → Prop
+  | .asIs e => e.run = .method
+  | .adapted .runMethod e => e.run = .method
+  | .adapted .callRun e => e.call = true
+  | .adapted .fcRun e => e.fill = .method ∧ e.compute = .method
+
+theorem convert_sound (e : Element α) (st : Stored α) (h : convert e = .ok st) : st.Sound := by
+  unfold convert mkRun at h
+  rw [isFillComputeEl_iff] at h
+  cases hr : e.run <;> cases hc : e.call <;> cases hf : e.fill <;> cases hp : e.compute <;>
+    simp [hr, hc, hf, hp, Attr.callable, Attr.present] at h <;> subst h <;>
+    simp [Stored.Sound, hr, hc, hf, hp]
+
+theorem convertAll_sound : ∀ (es : List (Element α)) (ss : List (Stored α)), convertAll es = .ok ss →
+    ∀ st ∈ ss, st.Sound
+  | [], ss, h => by simp [convertAll] at h; subst h; simp
+  | e :: es, ss, h => by
+    simp only [convertAll] at h
+    cases hc : convert e with
+    | error err => simp [hc] at h
+    | ok st =>
+      cases hr : convertAll es with
+      | error err => simp [hc, hr] at h
+      | ok ss' =>
+        simp [hc, hr] at h; subst h
+        intro st' hst'
+        rcases List.mem_cons.1 hst' with rfl | h'
+        · exact convert_sound e _ hc
+        · exact convertAll_sound es ss' hr st' h'
+
+/-- **Never later.**  In a constructed sequence every stored entry has the method its `run` will
+use (so no `AttributeError`/`TypeError` for a missing or non-callable `run`, `__call__`, `fill`,
+`compute` can arise during the run: `run_eq_fold` shows the run is the fold of the denotations
+themselves). -/
+theorem constructed_sound (args : List (Element α)) (s : Seq α) (h : mkSequence args = .ok s) :
+    ∀ st ∈ s.stored, st.Sound := by
+  unfold mkSequence at h
+  cases hc : convertAll (dataSeq args) with
+  | error err => simp [hc] at h
+  | ok ss =>
+    simp [hc] at h; subst h
+    exact convertAll_sound _ _ hc
+
+/-- non-vacuity of both directions: an object with a non-callable attribute `run` and nothing
+else is rejected; the same object marked `_has_no_data` is skipped -/
+example : errorOf (mkSequence [({ run := .value } : Element Nat)]) = some .lenaTypeError ∧
+    errorOf (mkSequence [({ run := .value, hasNoData := true } : Element Nat)]) = none := by
+  constructor <;> decide
+
+/-! ### the empty sequence -/
+
+/-- **An empty Sequence is the identity** (on every stream, also one that ends in an exception) -/
+theorem empty_id (flow : Strm α) :
+    ∃ s, mkSequence ([] : List (Element α)) = .ok s ∧ s.run flow = .ok flow :=
+  ⟨{ nargs := 0, stored := [] }, rfl, rfl⟩
+
+/-- so is a sequence whose arguments all carry no data (`SetContext`, …) -/
+theorem nodata_only_id (args : List (Element α)) (h : ∀ e ∈ args, e.hasNoData = true) (flow : Strm α) :
+    ∃ s, mkSequence args = .ok s ∧ s.run flow = .ok flow := by
+  have hd : dataSeq args = [] := by
+    simp only [dataSeq, List.filter_eq_nil_iff]
+    intro e he; simp [h e he]
+  have hok : okAll args := by
+    intro e he hn; rw [h e he] at hn; cases hn
+  obtain ⟨s, hs, hrun, -⟩ := mkSequence_ok args hok
+  exact ⟨s, hs, by rw [hrun, denAll, hd]; rfl⟩
+
+/-! ### regrouping -/
+
+/-- appending argument lists composes the runs: `Sequence(*a, *b).run = Sequence(*b).run ∘ Sequence(*a).run`,
+and `Sequence(*a, *b)` can be built exactly when both parts can -/
+theorem seq_append (a b : List (Element α)) :
+    (∀ s, mkSequence (a ++ b) = .ok s →
+        ∃ sa sb, mkSequence a = .ok sa ∧ mkSequence b = .ok sb ∧ ∀ flow, s.run flow = (sa.run flow >>= sb.run)) ∧
+    (∀ sa sb, mkSequence a = .ok sa → mkSequence b = .ok sb → ∃ s, mkSequence (a ++ b) = .ok s) := by
+  constructor
+  · intro s h
+    obtain ⟨hok, hrun, -⟩ := mkSequence_ok_inv _ _ h
+    obtain ⟨ha, hb⟩ := (okAll_append a b).1 hok
+    obtain ⟨sa, h1, h2, -⟩ := mkSequence_ok a ha
+    obtain ⟨sb, h3, h4, -⟩ := mkSequence_ok b hb
+    exact ⟨sa, sb, h1, h3, fun flow => by rw [hrun, h2, h4, denAll_append]⟩
+  · intro sa sb ha hb
+    obtain ⟨s, hs, -⟩ := mkSequence_ok (a ++ b)
+      ((okAll_append a b).2 ⟨(mkSequence_ok_inv _ _ ha).1, (mkSequence_ok_inv _ _ hb).1⟩)
+    exact ⟨s, hs⟩
+
+mutual
+/-- building a bracketing tree: the element obtained is convertible exactly when all leaves are,
+and then denotes the composition of the leaves in order; a failure is the `LenaTypeError` of an
+unconvertible leaf -/
+theorem build_spec : ∀ (t : Tree α),
+    (∀ e, build t = .ok e →
+        (okAll [e] ↔ okAll (flatten t)) ∧ (okAll (flatten t) → denAll [e] = denAll (flatten t))) ∧
+    (∀ err, build t = .error err → err = .lenaTypeError ∧ ¬ okAll (flatten t))
+  | .leaf e => by
+    simp only [build, flatten]
+    refine ⟨?_, ?_⟩
+    · intro e' h; cases h; exact ⟨Iff.rfl, fun _ => rfl⟩
+    · intro err h; cases h
+  | .node ts => by
+    have ih := buildList_spec ts
+    simp only [build, flatten]
+    cases hb : buildList ts with
+    | error err0 =>
+      refine ⟨by intro e h; simp at h, ?_⟩
+      intro err h
+      simp at h; subst h
+      exact ih.2 _ hb
+    | ok es =>
+      obtain ⟨hiff, hden⟩ := ih.1 es hb
+      by_cases hok : okAll es
+      · obtain ⟨s, hs, hrun, -⟩ := mkSequence_ok es hok
+        refine ⟨?_, by intro err h; simp [hs] at h⟩
+        intro e h
+        simp [hs] at h; subst h
+        refine ⟨⟨fun _ => hiff.1 hok, fun _ => toElement_okAll s⟩, ?_⟩
+        intro hflat
+        rw [denAll_toElement, hrun, hden hflat]
+      · have hs := mkSequence_not_ok es hok
+        refine ⟨by intro e h; simp [hs] at h, ?_⟩
+        intro err h
+        simp [hs] at h; subst h
+        exact ⟨rfl, fun hflat => hok (hiff.2 hflat)⟩
+theorem buildList_spec : ∀ (ts : List (Tree α)),
+    (∀ es, buildList ts = .ok es →
+        (okAll es ↔ okAll (flattenList ts)) ∧ (okAll (flattenList ts) → denAll es = denAll (flattenList ts))) ∧
+    (∀ err, buildList ts = .error err → err = .lenaTypeError ∧ ¬ okAll (flattenList ts))
+  | [] => by
+    simp only [buildList, flattenList]
+    refine ⟨?_, by intro err h; cases h⟩
+    intro es h; cases h; exact ⟨Iff.rfl, fun _ => rfl⟩
+  | t :: ts => by
+    have iht := build_spec t
+    have ihts := buildList_spec ts
+    simp only [buildList, flattenList]
+    cases hb : build t with
+    | error err0 =>
+      refine ⟨by intro es h; simp at h, ?_⟩
+      intro err h
+      simp at h; subst h
+      obtain ⟨h1, h2⟩ := iht.2 _ hb
+      exact ⟨h1, fun hall => h2 ((okAll_append _ _).1 hall).1⟩
+    | ok e =>
+      obtain ⟨hiff, hden⟩ := iht.1 e hb
+      cases hbl : buildList ts with
+      | error err0 =>
+        refine ⟨by intro es h; simp at h, ?_⟩
+        intro err h
+        simp at h; subst h
+        obtain ⟨h1, h2⟩ := ihts.2 _ hbl
+        exact ⟨h1, fun hall => h2 ((okAll_append _ _).1 hall).2⟩
+      | ok es =>
+        obtain ⟨hiff', hden'⟩ := ihts.1 es hbl
+        refine ⟨?_, by intro err h; simp at h⟩
+        intro es' h
+        simp at h; subst h
+        rw [okAll_cons, okAll_append, hiff, hiff']
+        refine ⟨Iff.rfl, ?_⟩
+        rintro ⟨h1, h2⟩
+        funext s
+        rw [denAll_cons, denAll_append, hden h1, hden' h2]
+end
+
+/-- **Regrouping.**  For every bracketing of an argument list into nested `Sequence(...)` calls, of
+any depth: the nested sequence can be constructed exactly when the flat one
+`Sequence(*flatten(...))` can, both fail with `LenaTypeError` otherwise, and their `run`s are the
+same function (same values, same exception, raised at the same point). -/
+theorem regroup (ts : List (Tree α)) :
+    (∀ e, build (.node ts) = .ok e →
+        ∃ s, mkSequence (flattenList ts) = .ok s ∧ e.invokeRun = s.run) ∧
+    (∀ err, build (.node ts) = .error err →
+        err = .lenaTypeError ∧ mkSequence (flattenList ts) = .error .lenaTypeError) ∧
+    (∀ s, mkSequence (flattenList ts) = .ok s → ∃ e, build (.node ts) = .ok e ∧ e.invokeRun = s.run) := by
+  have hl := buildList_spec ts
+  have ok_case : ∀ e, build (.node ts) = .ok e →
+      ∃ s, mkSequence (flattenList ts) = .ok s ∧ e.invokeRun = s.run := by
+    intro e h
+    simp only [build] at h
+    cases hb : buildList ts with
+    | error err0 => simp [hb] at h
+    | ok es =>
+      obtain ⟨hiff, hden⟩ := hl.1 es hb
+      cases hm : mkSequence es with
+      | error err0 => simp [hb, hm] at h
+      | ok s0 =>
+        simp [hb, hm] at h; subst h
+        obtain ⟨hok, hrun, -⟩ := mkSequence_ok_inv _ _ hm
+        obtain ⟨s, hs, hrun', -⟩ := mkSequence_ok _ (hiff.1 hok)
+        exact ⟨s, hs, by rw [toElement_invokeRun, hrun, hrun', hden (hiff.1 hok)]⟩
+  have err_case : ∀ err, build (.node ts) = .error err →
+      err = .lenaTypeError ∧ mkSequence (flattenList ts) = .error .lenaTypeError := by
+    intro err h
+    obtain ⟨h1, h2⟩ := (build_spec (.node ts)).2 err h
+    exact ⟨h1, mkSequence_not_ok _ (by simpa [flatten] using h2)⟩
+  refine ⟨ok_case, err_case, ?_⟩
+  intro s hs
+  cases hb : build (.node ts) with
+  | error err => rw [(err_case err hb).2] at hs; cases hs
+  | ok e =>
+    obtain ⟨s', hs', he⟩ := ok_case e hb
+    rw [hs] at hs'; cases hs'
+    exact ⟨e, rfl, he⟩
+
+/-- two constructor outcomes that no caller can tell apart: the same exception, or sequences
+whose `run` is the same function -/
+def SameOutcome (a b : Except Exc (Element α)) : Prop :=
+  match a, b with
+  | .ok x, .ok y => x.invokeRun = y.invokeRun
+  | .error e, .error e' => e = e'
+  | _, _ => False
+
+/-- **Any two bracketings of the same element list agree.** -/
+theorem regroup_any_two (ts us : List (Tree α)) (h : flattenList ts = flattenList us) :
+    SameOutcome (build (.node ts)) (build (.node us)) := by
+  obtain ⟨t1, t2, -⟩ := regroup ts
+  obtain ⟨u1, u2, u3⟩ := regroup us
+  unfold SameOutcome
+  cases hb : build (.node ts) with
+  | error err =>
+    obtain ⟨e1, e2⟩ := t2 err hb
+    cases hu : build (.node us) with
+    | error err' => simp [e1, (u2 err' hu).1]
+    | ok e' =>
+      obtain ⟨s, hs, -⟩ := u1 e' hu
+      rw [← h, e2] at hs; cases hs
+  | ok e =>
+    obtain ⟨s, hs, he⟩ := t1 e hb
+    rw [h] at hs
+    obtain ⟨e', he', hrun⟩ := u3 s hs
+    simp [he', he, hrun]
+
+/-- non-vacuity: `Sequence(a, Sequence(Sequence(), Sequence(b, c)))` and `Sequence(Sequence(a, b), c)`
+have the same flattening, and both are constructed -/
+example :
+    let a : Element Nat := { call := true, callDen := fun x => .ok (x + 1) }
+    let b : Element Nat := { run := .method, runDen := fun s => .ok (reverseS s) }
+    let c : Element Nat := { fill := .method, compute := .method, computeDen := fun h => .ok (.ofList h) }
+    let t1 : List (Tree Nat) := [.leaf a, .node [.node [], .node [.leaf b, .leaf c]]]
+    let t2 : List (Tree Nat) := [.node [.leaf a, .leaf b], .leaf c]
+    (build (.node t1)).toOption.map (fun e => observe (e.invokeRun (.ofList [1, 2, 3]))) = some (.ofList [4, 3, 2]) ∧
+    (build (.node t2)).toOption.map (fun e => observe (e.invokeRun (.ofList [1, 2, 3]))) = some (.ofList [4, 3, 2]) := by
+  constructor <;> decide
+
+/-! ### Source -/
+
+/-- **Source.**  `Source(f, *tl)` (with `f` a data element that is callable or iterable) can be
+constructed exactly when `Sequence(*tl)` can, fails with the same exception otherwise, and
+`Source(f, *tl)()` is `Sequence(*tl).run` applied to the flow of `f`. -/
+theorem source_tail (f : Element α) (tl : List (Element α)) (hd : f.hasNoData = false)
+    (hf : (f.call || f.hasIter) = true) :
+    (∀ src, mkSource (f :: tl) = .ok src →
+        ∃ s, mkSequence tl = .ok s ∧ src.call = (f.sourceFlow >>= s.run)) ∧
+    (∀ err, mkSource (f :: tl) = .error err → mkSequence tl = .error err) ∧
+    (∀ s, mkSequence tl = .ok s → ∃ src, mkSource (f :: tl) = .ok src) := by
+  have hds : dataSeq (f :: tl) = f :: dataSeq tl := by simp [dataSeq, hd]
+  have bind_ok : ∀ (x : Except Exc (Strm α)), (x >>= fun s => (Except.ok s : Except Exc (Strm α))) = x := by
+    intro x; cases x <;> rfl
+  cases tl with
+  | nil =>
+    have hm : mkSource [f] = .ok { first := f, tail := none } := by
+      simp [mkSource, dataSeq, hd, hf]
+    refine ⟨?_, (by intro err h; rw [hm] at h; cases h), (fun s _ => ⟨_, hm⟩)⟩
+    intro src h
+    rw [hm] at h; cases h
+    refine ⟨{ nargs := 0, stored := [] }, rfl, ?_⟩
+    simp only [Src.call]
+    exact (bind_ok _).symm
+  | cons t tl' =>
+    have hm : mkSource (f :: t :: tl') =
+        match mkSequence (dataSeq (t :: tl')) with
+        | .error err => .error err
+        | .ok s => .ok { first := f, tail := some s } := by
+      simp [mkSource, hds, hf]
+      rfl
+    by_cases hok : okAll (t :: tl')
+    · obtain ⟨s, hs, hrun, -⟩ := mkSequence_ok _ hok
+      obtain ⟨s', hs', hrun', hn'⟩ := mkSequence_ok _ ((okAll_dataSeq _).2 hok)
+      rw [hs'] at hm
+      refine ⟨?_, (by intro err h; rw [hm] at h; cases h), (fun _ _ => ⟨_, hm⟩)⟩
+      intro src h
+      rw [hm] at h; cases h
+      refine ⟨s, hs, ?_⟩
+      simp only [Src.call]
+      rw [hrun, hrun', denAll_dataSeq]
+      by_cases hpos : s'.nargs > 0
+      · simp only [hpos, if_true]
+        cases f.sourceFlow <;> rfl
+      · simp only [hpos, if_false]
+        have : dataSeq (t :: tl') = [] := by
+          rw [hn'] at hpos
+          exact List.eq_nil_of_length_eq_zero (by omega)
+        have hid : denAll (t :: tl') = fun s => .ok s := by
+          funext s; simp [denAll, this, composeS]
+        rw [hid]
+        exact (bind_ok _).symm
+    · have hs := mkSequence_not_ok _ hok
+      have hs' := mkSequence_not_ok _ (fun h => hok ((okAll_dataSeq _).1 h))
+      rw [hs'] at hm
+      refine ⟨(by intro src h; rw [hm] at h; cases h), ?_, (by intro s h; rw [hs] at h; cases h)⟩
+      intro err h
+      rw [hm] at h; cases h
+      exact hs
+
+/-- **Moving elements between a Source's tail and a following Sequence.**
+`Source(f, *a, *b)()` is `Sequence(*b).run(Source(f, *a)())`, and the left side can be constructed
+exactly when both objects on the right can. -/
+theorem source_move (f : Element α) (a b : List (Element α)) (hd : f.hasNoData = false)
+    (hf : (f.call || f.hasIter) = true) :
+    (∀ s1 s2 sb, mkSource (f :: (a ++ b)) = .ok s1 → mkSource (f :: a) = .ok s2 → mkSequence b = .ok sb →
+        s1.call = (s2.call >>= sb.run)) ∧
+    ((∃ s1, mkSource (f :: (a ++ b)) = .ok s1) ↔
+        (∃ s2, mkSource (f :: a) = .ok s2) ∧ (∃ sb, mkSequence b = .ok sb)) := by
+  obtain ⟨ab1, ab2, ab3⟩ := source_tail f (a ++ b) hd hf
+  obtain ⟨a1, a2, a3⟩ := source_tail f a hd hf
+  constructor
+  · intro s1 s2 sb h1 h2 hb
+    obtain ⟨sab, hsab, hc1⟩ := ab1 s1 h1
+    obtain ⟨sa, hsa, hc2⟩ := a1 s2 h2
+    obtain ⟨sa', sb', hsa', hsb', hrun⟩ := (seq_append a b).1 sab hsab
+    rw [hsa] at hsa'; cases hsa'
+    rw [hb] at hsb'; cases hsb'
+    rw [hc1, hc2]
+    cases f.sourceFlow with
+    | error err => rfl
+    | ok fl => exact hrun fl
+  · constructor
+    · rintro ⟨s1, h1⟩
+      obtain ⟨sab, hsab, -⟩ := ab1 s1 h1
+      obtain ⟨sa, sb, hsa, hsb, -⟩ := (seq_append a b).1 sab hsab
+      exact ⟨a3 sa hsa, sb, hsb⟩
+    · rintro ⟨⟨s2, h2⟩, ⟨sb, hb⟩⟩
+      obtain ⟨sa, hsa, -⟩ := a1 s2 h2
+      obtain ⟨sab, hsab⟩ := (seq_append a b).2 sa sb hsa hb
+      exact ab3 sab hsab
+
+/-- non-vacuity: `Source(gen, inc, cnt)()` with `gen` yielding `5, 6` -/
+example :
+    let gen : Element Nat := { call := true, genDen := .ok (.ofList [5, 6]) }
+    let inc : Element Nat := { call := true, callDen := fun x => .ok (x + 1) }
+    let cnt : Element Nat := { fill := .method, compute := .method, computeDen := fun h => .ok (.ofList [h.length]) }
+    (mkSource [gen, inc, cnt]).toOption.map (fun s => observe s.call) = some (.ofList [2]) ∧
+    (mkSource [gen, inc]).toOption.map (fun s => observe s.call) = some (.ofList [6, 7]) := by
+  constructor <;> decide
+
+end Lena.C01
